@@ -38,6 +38,10 @@ static bool gen_c19(uint64_t seed, const std::string &tier, uint64_t i, Plan &p)
     int64_t age = r.pick(std::vector<int64_t>{0, 1, 50, 50, 100, 100, 5000, 200000}); if (age > 0) eligible++;
     f.set("age", (long long)age).set("content", p_message(r)); files.push(f);
   }
+  // very large messages (sparse files: a short text followed by gigabytes of zero bytes), alone or adding up beyond 4 GiB; such a
+  // mailbox is listed, counted, marked and cleaned up, never retrieved (the simulation would have to move the gigabytes)
+  bool huge = eligible > 0 && r.chance(0.06);
+  if (huge) { int done = 0; for (auto &f : files.a) if (f.geti("age", 0) > 0 && (done == 0 || r.chance(0.5))) { f.set("hole", (long long)r.pick(std::vector<int64_t>{4294967296LL, 4294967296LL - 5, 4294968296LL, 2147483648LL, 1500000000LL, 10000000000LL, 99999999999LL})); done++; } }
   if (r.chance(0.2)) files.push(Json::obj().set("dir", "new").set("name", ".hidden").set("age", 100).set("content", "hidden\n"));
   p.knobs.set("files", files);
   Json tmp = Json::arr(); if (r.chance(0.4)) tmp.push(Json::obj().set("name", "old.1.h").set("age", 200000)); if (r.chance(0.4)) tmp.push(Json::obj().set("name", "fresh.2.h").set("age", 100)); p.knobs.set("tmpfiles", tmp);
@@ -56,6 +60,7 @@ static bool gen_c19(uint64_t seed, const std::string &tier, uint64_t i, Plan &p)
   int nmua = 0;
   for (int q = 0; q < nc; q++) {
     int c = (int)r.below(20); std::string l;
+    if (huge && (c < 7 || c > 17)) c = 7 + (int)r.below(11);
     if (c < 4) l = "RETR " + p_arg(r, eligible);
     else if (c < 7) l = "TOP " + p_arg(r, eligible) + " " + r.pick(std::vector<std::string>{"0", "1", "2", "5", "1000", "", "x", "4294967296"});
     else if (c < 10) l = "DELE " + p_arg(r, eligible);
@@ -67,6 +72,7 @@ static bool gen_c19(uint64_t seed, const std::string &tier, uint64_t i, Plan &p)
       l = head + std::string(pad, ' ') + r.pick(std::vector<std::string>{"DELE 1 ", "QUIT", "RSET", "DELE 2"}); }
     else if (c == 17) l = r.pick(std::vector<std::string>{"XYZZY", "", "USER x", "PASS y", "RETR", "DELE", "TOP", "retr 1"});
     else l = "RETR " + std::to_string(eligible ? 1 + (int)r.below((uint64_t)eligible) : 1);
+    if (huge) { std::string u = l.substr(0, 4); for (auto &ch : u) ch = (char)toupper((unsigned char)ch); if (u == "RETR" || u.compare(0, 3, "TOP") == 0) l = "STAT"; }
     cmd(l);
     if (mode == 3 && n > 0 && nmua < 2 && r.chance(0.25)) { p.ops.push(Json::obj().set("op", "mua").set("after", (long long)(p.ops.a.size() - (size_t)nmua - (popup ? 0 : 0))).set("act", r.chance(0.5) ? "unlink" : "rename").set("file", (long long)r.below((uint64_t)n))); nmua++; }
   }
